@@ -19,6 +19,7 @@ reports analysis-broken, as before. What was matched is listed in the evidence."
 import json
 import os
 
+WEAK = set()
 BASELINE = os.path.join(os.path.dirname(os.path.dirname(os.path.abspath(__file__))), "baseline_symbols.json")
 
 
@@ -326,5 +327,11 @@ def normalise(units, rel):
     fmap, gmap = match(base, cur)
     apply(units, rel, fmap, gmap)
     out = [(rf, "function", old, new, perm != list(range(len(perm)))) for (rf, new), (old, perm) in sorted(fmap.items())]
+    # a re-identified function whose parameter names changed too may have changed what a parameter means
+    global WEAK
+    WEAK = set()
+    for (rf, new), (old, perm) in fmap.items():
+        if new != old and sorted(p[1] for p in base[rf]["functions"][old]["params"]) != sorted(p[1] for p in cur[rf]["functions"][new]["params"]):
+            WEAK.add(old)
     out += [(rf, "variable", old, new, False) for (rf, new), old in sorted(gmap.items())]
     return out
